@@ -78,6 +78,17 @@ func (e *Engine) arrayEq(st *State, a, b Val) (string, bool) {
 		}
 		return nil, false
 	}
+	// an opaque pointer and an opaque object term
+	if pa, ok := a.(*PtrV); ok && pa.Opaque != nil && pa.Opaque.S == "Obj" {
+		if tb, ok := b.(*Term); ok && tb.S == "Obj" {
+			return smtEq(pa.Opaque.T, tb.T), true
+		}
+	}
+	if pb, ok := b.(*PtrV); ok && pb.Opaque != nil && pb.Opaque.S == "Obj" {
+		if ta, ok := a.(*Term); ok && ta.S == "Obj" {
+			return smtEq(pb.Opaque.T, ta.T), true
+		}
+	}
 	if x, ok := a.(*StoreHandleV); ok {
 		y, ok := b.(*StoreHandleV)
 		if !ok {
